@@ -88,6 +88,9 @@ func (a *AuthIp) watchYml() error {
 					switch {
 					case ev.Op&fsnotify.Write == fsnotify.Write:
 						fallthrough
+					case ev.Op&fsnotify.Create == fsnotify.Create:
+						// a file renamed over the watched one arrives as Create
+						fallthrough
 					case ev.Op&fsnotify.Rename == fsnotify.Rename:
 						if err := a.parseAuthIp(); err != nil {
 							logging.Errorf("parser auth ip err: %s", err)
@@ -120,9 +123,20 @@ func (a *AuthIp) parseAuthIp() error {
 		return nil
 	}
 
+	listed := make(map[string]struct{}, len(auth.IpList))
 	for _, ip := range auth.IpList {
+		listed[ip] = struct{}{}
 		if !IpMap.Insert(ip, struct{}{}) {
 			logging.Debugf("set ip %s", ip)
+		}
+	}
+	// addresses that are no longer in the file lose their access
+	for kv := range IpMap.Iter() {
+		if ip, ok := kv.Key.(string); ok {
+			if _, ok := listed[ip]; !ok {
+				IpMap.Del(ip)
+				logging.Debugf("del ip %s", ip)
+			}
 		}
 	}
 	return nil
